@@ -68,5 +68,7 @@ def _tname(t: ast.AST) -> Optional[str]:
 
 def fact(ctx, rule, f, what, got, want, doc):
     """got == want (both any comparable, typically lists of normal-form strings)"""
+    if got != want:
+        ctx.extra.setdefault("_fact_mismatch", []).append({"rule": rule, "where": getattr(f, "fq", str(f)), "got": got, "want": want})
     return ctx.check(got == want, rule, f, "%s: %s" % (what, got), doc,
                      "%s -- found %s, expected %s" % (doc, got, want))
